@@ -43,7 +43,9 @@ for f in conf:
             except Exception:
                 return None
         replaced = {key(l) for l in added if key(l)}
-        kept = [l for l in head if not (key(l) in replaced and l in base)]      # an entry the branch rewrote
+        theirs_set = set(theirs)
+        kept = [l for l in head if not (key(l) in replaced and l in base)      # an entry the branch rewrote
+                and not (l in base and l not in theirs_set)]                    # an entry the branch deleted
         open(f, "w").write("\n".join(kept + added) + "\n")
     else:
         s = open(f).read()
